@@ -763,3 +763,58 @@ def patchify_patterns_mirror(res):
             add_direct(res, f"{fwd}:frame:inverse-reads-recorded-grid", "frame", not bad, where=inv, detail="; ".join(bad),
                        note="every axis size the inverse passes to einops is the ctx entry in which the forward call stored that axis' size",
                        model={"mismatch": bad} if bad else None)
+
+
+# ------------------------------------------------------------------------------------------------ C17: step-keyed block sizes
+def ijepa_sizes_keyed_by_step(res):
+    """block sizes depend only on the collator's step counter: in collate the generator handed to _sample_block_size is
+    torch.Generator().manual_seed(seed) with seed = self.step(), and _sample_block_size reads no other random source"""
+    rel = "kappadata/collators/kd_ijepa_mask_collator.py"
+    try:
+        tree = ast.parse(open(os.path.join(REPO, rel)).read())
+        cd = [n for n in tree.body if isinstance(n, ast.ClassDef) and n.name == "KDIjepaMaskCollator"][0]
+        fns = {f.name: f for f in cd.body if isinstance(f, ast.FunctionDef)}
+        col, sz = fns["collate"], fns["_sample_block_size"]
+    except (OSError, SyntaxError, IndexError, KeyError) as ex:
+        add_direct(res, f"{rel}:frame:block-sizes-keyed-by-step-counter", "frame", False, where=rel, detail=f"structure not found: {ex}")
+        return
+    bad = []
+    assigns = {}
+    for n in ast.walk(col):
+        if isinstance(n, ast.Assign) and len(n.targets) == 1 and isinstance(n.targets[0], ast.Name):
+            assigns.setdefault(n.targets[0].id, []).append(ast.unparse(n.value))
+    if assigns.get("seed") != ["self.step()"]:
+        bad.append(f"seed is assigned {assigns.get('seed')}, expected exactly self.step()")
+    if assigns.get("generator") != ["torch.Generator().manual_seed(seed)"]:
+        bad.append(f"generator is assigned {assigns.get('generator')}, expected exactly torch.Generator().manual_seed(seed)")
+    ncalls = 0
+    for n in ast.walk(col):
+        if isinstance(n, ast.Call) and ast.unparse(n.func) == "self._sample_block_size":
+            ncalls += 1
+            g = [ast.unparse(k.value) for k in n.keywords if k.arg == "generator"] + [ast.unparse(a) for a in n.args[:1]]
+            if g[:1] != ["generator"]:
+                bad.append(f"line {n.lineno}: _sample_block_size is not given the step-seeded generator")
+            for k in n.keywords:
+                if k.arg != "generator":
+                    for m in ast.walk(k.value):
+                        if isinstance(m, ast.Attribute) and m.attr == "rng" or isinstance(m, ast.Call):
+                            bad.append(f"line {n.lineno}: argument {k.arg} is not a configuration value")
+    if ncalls == 0:
+        bad.append("collate never calls _sample_block_size")
+    for n in ast.walk(sz):
+        if isinstance(n, ast.Attribute) and n.attr == "rng":
+            bad.append(f"line {n.lineno}: _sample_block_size reads self.rng")
+        if isinstance(n, ast.Call):
+            f = ast.unparse(n.func)
+            if f in ("torch.rand", "torch.randn", "torch.randint", "torch.randperm", "torch.normal", "torch.multinomial") and \
+                    [ast.unparse(k.value) for k in n.keywords if k.arg == "generator"] != ["generator"]:
+                bad.append(f"line {n.lineno}: {f} without the step-seeded generator")
+            if f.startswith(("np.random", "numpy.random", "random.")) or f in ("id", "hash") or f.startswith("time."):
+                bad.append(f"line {n.lineno}: {f} is not a function of the step counter")
+    step = fns.get("step")
+    reads = sorted({ast.unparse(n) for n in ast.walk(step) if isinstance(n, ast.Attribute) and isinstance(n.value, ast.Name) and n.value.id == "self"}) if step else []
+    if reads != ["self._itr_counter"]:
+        bad.append(f"step() reads {reads}, expected only the shared counter")
+    add_direct(res, f"{rel}:frame:block-sizes-keyed-by-step-counter", "frame", not bad, where=rel, detail="; ".join(bad),
+               note="the only random input of _sample_block_size is a generator seeded with self.step(); everything else it reads is configuration",
+               model={"problems": bad} if bad else None)
